@@ -573,6 +573,7 @@ def quantile_section(ck):
     _timed(ck, "quantile_fibres", quantile_fibres)
 
 
+# >>> PASTED SECTIONS
 # ====================================================================== blas (fff_blas.c)
 # ---------------------------------------------------------------------------
 # C16 / blas section: row-major wrappers of column-major BLAS (lib/fff/fff_blas.c)
@@ -1018,6 +1019,1299 @@ def blas(ck):
                     "dsyrk/dsyr2k compared on the whole matrix (code leaves the non-uplo triangle untouched)")
 
 
+# ====================================================================== spline (cubic_spline.c)
+# ---------------------------------------------------------------------------
+# C16 section "spline": cubic_spline.c  (basis, boundary/mirror index maps,
+# sampling 1d..4d, coefficient transform).  Paste into harness/props/c16.py.
+# Assumes ck.coq_build() and ck.overlay() already ran.
+#
+#   (a) correspondence (exact, Coq vm_compute): NV.C16.SplineModel.sample1d_fp
+#       (the model of cubic_spline_sample1d with the constant 0.66666666666667
+#       rounded to double) against _cspline_sample1d on unit-impulse coefficient
+#       arrays - sampling an impulse at k gives w * sum_{xx: mirror(xx)=k} B(x'-xx),
+#       so basis, boundary conditions, neighbour choice and mirror map are all
+#       observed.  Dyadic x; compared with Qeq_bool wherever every float
+#       operation of the C is exact, and to 2^-51 where a division by 6.0, a sum
+#       of two weights or the product with the weight w rounds.
+#   (b) oracles on the implementation (TESTS, independent of Coq): interpolation
+#       identity and scipy.ndimage.spline_filter for _cspline_transform;
+#       grid-point reproduction for every mode; sampling anywhere vs an independent
+#       restatement of the boundary rules (closed-form B-spline) and vs
+#       scipy.ndimage.map_coordinates(prefilter=False, mode='mirror');
+#       separability of 2d..4d sampling; coefficient-array layouts/dtypes.
+# ---------------------------------------------------------------------------
+import itertools
+import math
+import re
+import subprocess
+import sys
+import time
+from fractions import Fraction
+
+import numpy as np
+
+from ..kit import cq, cz, cnat, frac, REPO, VERIF
+
+_SPL_HDR = ("From Coq Require Import List ZArith.\nRequire Import QArith Qabs.\nFrom NV.C16 Require Import SplineModel.\n")
+_SPL_MODES = ("zero", "nearest", "reflect")
+_SPL_MODENUM = {"zero": 0, "nearest": 1, "reflect": 2}
+_SPL_TOL = 1e-10
+
+
+def _spl_R():
+    from nipy.algorithms.registration import _registration as R
+    return R
+
+
+# ------------------------------------------------------------------ independent restatement
+def _spl_bclosed(d):
+    """Cubic B-spline in closed (truncated-power) form - not the C's branch form."""
+    a = np.abs(np.asarray(d, dtype=float))
+    return (np.maximum(0.0, 2.0 - a) ** 3 - 4.0 * np.maximum(0.0, 1.0 - a) ** 3) / 6.0
+
+
+def _spl_mirror_once(k, ddim):
+    """Grid mirrored once on each side: valid for -ddim <= k <= 2*ddim."""
+    if k < 0:
+        return -k
+    if k > ddim:
+        return 2 * ddim - k
+    return k
+
+
+def _spl_ref_plan(x, n, mode):
+    """Restated boundary rule for one axis of extent n: None (value is 0) or
+    (x', w, nx) - clamped/kept coordinate, weight and first of the 4 neighbours.
+    'zero': linear ramp to 0 within one voxel outside the grid, 0 beyond;
+    'nearest': coordinate clamped to the grid; 'reflect': grid mirrored once on
+    each side, 0 beyond; in every mode 0 if one of the four neighbours
+    floor(x')-1..floor(x')+2 is outside the once-mirrored grid [-ddim, 2 ddim]."""
+    ddim = n - 1
+    w = 1.0
+    if mode == "zero":
+        if x < -1 or x > n:
+            return None
+        if x < 0:
+            w, x = 1.0 + x, 0.0
+        elif x > ddim:
+            w, x = n - x, float(ddim)
+    elif mode == "nearest":
+        x = min(max(x, 0.0), float(ddim))
+    else:
+        if x < -ddim or x > 2 * ddim:
+            return None
+    nx = math.floor(x) - 1
+    if nx < -ddim or nx + 3 > 2 * ddim:
+        return None
+    return x, w, nx
+
+
+def _spl_ref_axis(x, n, mode):
+    p = _spl_ref_plan(float(x), n, mode)
+    if p is None:
+        return None
+    xp, w, nx = p
+    pos = [_spl_mirror_once(nx + d, n - 1) for d in range(4)]
+    wts = w * _spl_bclosed([xp - (nx + d) for d in range(4)])
+    return pos, wts
+
+
+def _spl_ref_sample(C, point, modes):
+    """Reference value of the tensor-product spline with coefficients C at `point`."""
+    sub = C
+    axes = []
+    for ax, (x, m) in enumerate(zip(point, modes)):
+        r = _spl_ref_axis(x, C.shape[ax], m)
+        if r is None:
+            return 0.0
+        axes.append(r)
+    blk = C[np.ix_(*[a[0] for a in axes])].astype(float)
+    for pos, wts in reversed(axes):
+        blk = blk @ wts
+    return float(blk)
+
+
+def _spl_bgrid(c):
+    """(c[k-1] + 4 c[k] + c[k+1]) / 6 along every axis, mirror boundaries
+    (c[-1] = c[1], c[N] = c[N-2]; extent 1: the single value)."""
+    out = np.asarray(c, dtype=float)
+    for ax in range(out.ndim):
+        n = out.shape[ax]
+        if n == 1:
+            continue
+        idx = np.arange(n)
+        lo = np.abs(idx - 1)
+        hi = idx + 1
+        hi[hi > n - 1] = 2 * (n - 1) - hi[hi > n - 1]
+        out = (np.take(out, lo, axis=ax) + 4.0 * out + np.take(out, hi, axis=ax)) / 6.0
+    return out
+
+
+def _spl_layouts(a, rng):
+    """Same values in different memory layouts: C, Fortran, transposed-copy view,
+    positive non-unit strides, reversed (negative stride)."""
+    outs = [("C", np.ascontiguousarray(a)), ("F", np.asfortranarray(a))]
+    big = np.zeros([2 * s for s in a.shape], dtype=a.dtype)
+    sl = tuple(slice(None, None, 2) for _ in a.shape)
+    big[sl] = a
+    outs.append(("step2", big[sl]))
+    rev = np.ascontiguousarray(a[::-1])[::-1]
+    outs.append(("reversed", rev))
+    if a.ndim >= 2:
+        t = np.ascontiguousarray(a.T).T
+        outs.append(("transposed", t))
+    return outs
+
+
+def _spl_sample(R, C, pts, modes):
+    """pts: (npts, ndim) float array -> values via _cspline_sample{ndim}d."""
+    pts = np.asarray(pts, dtype=float)
+    nd = C.ndim
+    out = np.zeros(pts.shape[0])
+    cols = [np.ascontiguousarray(pts[:, i]) for i in range(nd)]
+    if nd == 1:
+        R._cspline_sample1d(out, C, cols[0], mode=modes[0])
+    elif nd == 2:
+        R._cspline_sample2d(out, C, cols[0], cols[1], mx=modes[0], my=modes[1])
+    elif nd == 3:
+        R._cspline_sample3d(out, C, cols[0], cols[1], cols[2], mx=modes[0], my=modes[1], mz=modes[2])
+    else:
+        R._cspline_sample4d(out, C, cols[0], cols[1], cols[2], cols[3],
+                            mx=modes[0], my=modes[1], mz=modes[2], mt=modes[3])
+    return out
+
+
+def _spl_region(x, n):
+    if x < 0:
+        return "x<0"
+    if x > n - 1:
+        return "x>last"
+    if x == int(x):
+        return "grid-point"
+    return "inside"
+
+
+# ------------------------------------------------------------------ (a) correspondence
+def _spl_source_constant(ck):
+    """The decimal literal used for 2/3 in cubic_spline_basis, parsed from the C."""
+    src = (REPO / "nipy/algorithms/registration/cubic_spline.c").read_text()
+    m = re.search(r"y\s*=\s*([0-9]*\.[0-9]+)\s*-\s*aux\s*\+\s*0\.5\s*\*\s*absx\s*\*\s*aux\s*;", src)
+    m2 = re.search(r"y\s*=\s*aux\s*\*\s*aux\s*\*\s*aux\s*/\s*6\.0\s*;", src)
+    if not m or not m2:
+        ck.fail("spline/source-shape/cubic_spline_basis-not-recognised",
+                "cubic_spline_basis in cubic_spline.c no longer has the two polynomial statements the Coq model "
+                "(NV.C16.SplineModel.basis_core) was written from; the model must be re-derived",
+                {"kind": "correspondence-broken", "file": "nipy/algorithms/registration/cubic_spline.c"},
+                found_input=False)
+        return None
+    return m.group(1)
+
+
+def _spl_exact_expected(x, n, mode, k):
+    """Is every floating-point operation of cubic_spline_sample1d exact for the
+    impulse at k?  (single neighbour hits k, weight w == 1, and the basis value is
+    a dyadic rational: |d| < 1, |d| >= 2, or (2-|d|) = 3j/2^m so that /6.0 is exact)."""
+    p = _spl_ref_plan(float(x), n, mode)
+    if p is None:
+        return True, "returns-0"
+    xp, w, nx = p
+    hits = [nx + d for d in range(4) if _spl_mirror_once(nx + d, n - 1) == k]
+    if not hits:
+        return True, "no-hit"
+    if len(hits) > 1:
+        return False, "two-neighbours-hit"
+    if w != 1.0:
+        return False, "weighted"
+    ad = abs(Fraction(xp) - hits[0])
+    if ad < 1:
+        return True, "|d|<1"
+    if ad >= 2:
+        return True, "|d|>=2"
+    if (2 - ad).numerator % 3 == 0:
+        return True, "1<=|d|<2,exact-div"
+    return False, "1<=|d|<2,rounded-div"
+
+
+def _spl_correspondence(ck, R):
+    lit = _spl_source_constant(ck)
+    if not (ck.build is not None and ck.build.ok):
+        ck.section("spline", model_cases="skipped: Coq build not ok")
+        return
+    terms, meta = [], []
+    if lit is not None:
+        terms.append("Qeq_bool c23_literal %s" % cq(Fraction(lit)))
+        meta.append(("const", "literal", lit))
+        terms.append("Qeq_bool c23_double %s" % cq(float(lit)))
+        meta.append(("const", "double", lit))
+    ns = ck.n([1, 2, 3, 4, 6], [1, 2, 3, 4, 5, 6, 7, 9])
+    den = ck.n(8, 16)
+    nexact = nclose = 0
+    for n in ns:
+        lo, hi = -(n + 1), 2 * n + 1
+        xs = set(Fraction(j, den) for j in range(lo * den, hi * den + 1))
+        # offsets that make the outer-branch division by 6.0 exact: 2-|d| = 3j/16
+        for k in range(n):
+            for j in range(1, 6):
+                for sgn in (1, -1):
+                    xs.add(Fraction(k) + sgn * (2 - Fraction(3 * j, 16)))
+        xs = sorted(x for x in xs if lo <= x <= hi)
+        xf = np.array([float(x) for x in xs])
+        for mode in _SPL_MODES:
+            resp = np.zeros((n, len(xs)))
+            for k in range(n):
+                imp = np.zeros(n)
+                imp[k] = 1.0
+                out = np.zeros(len(xs))
+                R._cspline_sample1d(out, imp, xf, mode=mode)
+                resp[k] = out
+            for i, x in enumerate(xs):
+                for k in range(n):
+                    v = float(resp[k, i])
+                    exact, why = _spl_exact_expected(x, n, mode, k)
+                    model = "sample1d_fp %s %s (impulse %s %s)" % (cz(_SPL_MODENUM[mode]), cq(x), cnat(n), cnat(k))
+                    if exact:
+                        terms.append("Qeq_bool (%s) %s" % (model, cq(v)))
+                        nexact += 1
+                    else:
+                        terms.append("Qle_bool (Qabs (%s - %s)) (1 # 2251799813685248)" % (model, cq(v)))
+                        nclose += 1
+                    meta.append(("case", n, mode, x, k, v, exact, why))
+                    ck.count(("spl-imp", n, mode, x, k), nontrivial=v != 0.0,
+                             bucket="spline:impulse:%s:%s" % (mode, _spl_region(x, n)))
+    t0 = time.time()
+    res = ck.coq_bools(_SPL_HDR, terms, shard=400, name="spline")
+    ck.cov["traces_validated_against_impl"] += len(res)
+    for ok, m in zip(res, meta):
+        if ok:
+            continue
+        if m[0] == "const":
+            ck.fail("spline/source-constant/%s" % m[1],
+                    "the constant %s in cubic_spline_basis differs from NV.C16.SplineModel.c23_%s" % (m[2], m[1]),
+                    {"kind": "correspondence-broken", "source_literal": m[2]}, found_input=False)
+            continue
+        _, n, mode, x, k, v, exact, why = m
+        mv = ck.coq_show(_SPL_HDR, "Qred (sample1d_fp %s %s (impulse %s %s))" % (
+            cz(_SPL_MODENUM[mode]), cq(x), cnat(n), cnat(k)))
+        ck.fail("spline/model-vs-impl/mode=%s,%s,%s" % (mode, _spl_region(x, n), why),
+                "_cspline_sample1d on the unit impulse at %d of a length-%d coefficient array, x=%s, mode=%s returns %r; "
+                "the Coq model sample1d_fp gives %s (%s comparison)" % (k, n, x, mode, v, mv,
+                                                                       "exact" if exact else "2^-51"),
+                {"call": "_cspline_sample1d(np.zeros(1), impulse, [x], mode=mode)", "n": n, "impulse_at": k,
+                 "x": float(x), "mode": mode, "impl": v, "model": mv})
+    ck.section("spline", model_cases=len(terms), model_cases_exact=nexact, model_cases_2pow_minus51=nclose,
+               impulse_extents=ns, x_step="1/%d" % den, coq_eval_s=round(time.time() - t0, 1))
+    ck.sample({"spline_case": "sample1d(impulse(5,2), x=2.5, 'zero')",
+               "impl": float(R._cspline_sample1d(np.zeros(1), np.eye(5)[2].copy(), [2.5], mode="zero")[0])})
+
+
+# ------------------------------------------------------------------ (b) oracles
+def _spl_shapes(ck, rng):
+    shapes = [(n,) for n in range(1, 8)]
+    ext2 = [1, 2, 3, 5, 7]
+    shapes += list(itertools.product(ext2, ext2)) if ck.thorough() else \
+        [(1, 1), (1, 4), (2, 2), (2, 5), (3, 3), (3, 7), (5, 2), (7, 1), (4, 6), (7, 7)]
+    n3 = ck.n(8, 60)
+    n4 = ck.n(4, 30)
+    fixed3 = [(1, 1, 1), (2, 2, 2), (3, 3, 3), (1, 3, 2), (4, 5, 3), (7, 3, 4)]
+    fixed4 = [(1, 1, 1, 1), (2, 2, 2, 2), (3, 3, 3, 3), (3, 1, 4, 2)]
+    shapes += fixed3[:n3] + [tuple(int(v) for v in rng.integers(1, 8, 3)) for _ in range(max(0, n3 - len(fixed3)))]
+    shapes += fixed4[:n4] + [tuple(int(v) for v in rng.integers(1, 6, 4)) for _ in range(max(0, n4 - len(fixed4)))]
+    return shapes
+
+
+def _spl_grid_feature(shape, pt, modes):
+    if 1 in shape:
+        return "extent=1"
+    for ax, n in enumerate(shape):
+        if n == 2 and pt[ax] == 1:
+            return "extent=2,last-grid-point"
+    where = "interior"
+    for ax, n in enumerate(shape):
+        if pt[ax] == 0:
+            where = "first-grid-point"
+        elif pt[ax] == n - 1:
+            where = "last-grid-point"
+    ms = modes[0] if len(set(modes)) == 1 else "mixed"
+    return "extent>=%d,mode=%s,%s" % (min(3, min(shape)), ms, where)
+
+
+def _spl_transform_oracle(ck, R, rng):
+    import scipy.ndimage as ndi
+    ncase = 0
+    for shape in _spl_shapes(ck, rng):
+        s = rng.integers(-50, 51, size=shape).astype(float)
+        nd = len(shape)
+        ref = ndi.spline_filter(s, order=3, mode="mirror", output=np.float64)
+        for lname, sv in _spl_layouts(s, rng):
+            for dt in ((np.float64, np.int32) if lname == "C" else (np.float64,)):
+                src = sv.astype(dt) if dt is not np.float64 else sv
+                c = R._cspline_transform(src)
+                ncase += 1
+                ck.count(("spl-tr", shape, lname, str(dt), s.tobytes()), nontrivial=s.size > 1,
+                         bucket="spline:transform:%dd:%s" % (nd, lname))
+                rep = {"call": "_cspline_transform(s)", "shape": list(shape), "layout": lname,
+                       "dtype": np.dtype(dt).name, "s": s.tolist()}
+                feat = "%dd,%s,extent%s" % (nd, lname, "=1" if max(shape) == 1 else ("=2" if max(shape) == 2 else ">=3"))
+                if c.shape != s.shape or c.dtype != np.float64:
+                    ck.fail("spline/transform-shape/" + feat, "result has shape %s dtype %s" % (c.shape, c.dtype), rep)
+                    continue
+                back = _spl_bgrid(c)
+                if not np.allclose(back, s, rtol=0, atol=_SPL_TOL):
+                    bad = np.unravel_index(np.argmax(np.abs(back - s)), s.shape)
+                    rep.update(c=c.tolist(), index=[int(b) for b in bad], identity_value=float(back[bad]))
+                    ck.fail("spline/transform-interpolation-identity/" + feat,
+                            "(c[k-1]+4c[k]+c[k+1])/6 (mirror boundaries, every axis) = %r at %s but the sample is %r"
+                            % (float(back[bad]), bad, float(s[bad])), rep)
+                elif not np.allclose(c, ref, rtol=0, atol=_SPL_TOL * max(1.0, float(np.max(np.abs(ref))))):
+                    # relative to the coefficient scale: the C's pole constants carry 14 digits
+                    rep.update(c=c.tolist(), scipy=ref.tolist())
+                    ck.fail("spline/transform-vs-scipy/" + feat,
+                            "differs from scipy.ndimage.spline_filter(order=3, mode='mirror') by %g"
+                            % float(np.max(np.abs(c - ref))), rep)
+    return ncase
+
+
+def _spl_grid_oracle(ck, R, rng):
+    """Sampling the coefficients of s at every grid point gives back s, in every mode."""
+    ncase = 0
+    for shape in _spl_shapes(ck, rng):
+        nd = len(shape)
+        s = rng.integers(-50, 51, size=shape).astype(float)
+        c = R._cspline_transform(s)
+        pts = np.array(list(itertools.product(*[range(n) for n in shape])), dtype=float)
+        modesets = [(m,) * nd for m in _SPL_MODES]
+        if nd > 1:
+            modesets.append(tuple(_SPL_MODES[int(i)] for i in rng.integers(0, 3, nd)))
+        for lname, cv in _spl_layouts(c, rng):
+            if lname == "reversed":
+                continue        # negative strides: handled in a child process (_spl_layout_child)
+            for modes in modesets:
+                got = _spl_sample(R, cv, pts, modes)
+                ncase += len(pts)
+                ck.count(("spl-grid", shape, lname, modes, s.tobytes()), nontrivial=s.size > 1,
+                         bucket="spline:grid-points:%dd:%s" % (nd, modes[0] if len(set(modes)) == 1 else "mixed"))
+                err = np.abs(got - s.reshape(-1))
+                for i in np.nonzero(err > _SPL_TOL)[0]:
+                    pt = [int(v) for v in pts[i]]
+                    ck.fail("spline/grid-reproduction/" + _spl_grid_feature(shape, pt, modes),
+                            "sampling the spline coefficients of s at grid point %s (modes %s, %s layout) gives %r, "
+                            "the sample there is %r" % (pt, modes, lname, float(got[i]), float(s.reshape(-1)[i])),
+                            {"call": "c=_cspline_transform(s); _cspline_sample%dd(R, c, *point, modes)" % nd,
+                             "shape": list(shape), "s": s.tolist(), "point": pt, "modes": list(modes),
+                             "layout": lname, "got": float(got[i]), "expected": float(s.reshape(-1)[i])})
+    return ncase
+
+
+def _spl_points(rng, shape, npts):
+    """Sample coordinates: dyadic and generic, inside, near and beyond the mirrored grid."""
+    cols = []
+    for n in shape:
+        lo, hi = -(n + 1.5), 2 * n + 1.5
+        a = rng.integers(int(lo * 8), int(hi * 8) + 1, npts) / 8.0
+        b = rng.uniform(lo, hi, npts)
+        inside = rng.uniform(0, max(n - 1, 0), npts)
+        pick = rng.integers(0, 3, npts)
+        cols.append(np.where(pick == 0, a, np.where(pick == 1, b, inside)))
+    return np.stack(cols, axis=1)
+
+
+def _spl_anywhere_oracle(ck, R, rng):
+    import scipy.ndimage as ndi
+    ncase = 0
+    npts = ck.n(60, 400)
+    for shape in _spl_shapes(ck, rng):
+        nd = len(shape)
+        C = rng.integers(-20, 21, size=shape).astype(float)
+        pts = _spl_points(rng, shape, npts)
+        if nd == 1:        # boundary-rule corner coordinates
+            n = shape[0]
+            extra = [-n, -n + 1, -n + 0.5, -1.0, -0.5, 0.0, n - 1.0, n - 0.5, float(n), n + 0.5,
+                     2.0 * n - 3, 2.0 * n - 2.5, 2.0 * n - 2, -1.5, n - 1 + 1e-9, -1e-9]
+            pts = np.concatenate([pts, np.array(extra, dtype=float)[:, None]])
+        modesets = [(m,) * nd for m in _SPL_MODES]
+        if nd > 1:
+            modesets += [tuple(_SPL_MODES[int(i)] for i in rng.integers(0, 3, nd)) for _ in range(2)]
+        layouts = [l for l in _spl_layouts(C, rng) if l[0] != "reversed"]
+        for modes in modesets:
+            ref = np.array([_spl_ref_sample(C, p, modes) for p in pts])
+            # second opinion where the rule does not return 0: scipy evaluates the mirror spline at (x')
+            sp = np.full(len(pts), np.nan)
+            if min(shape) >= 2:
+                plans = [[_spl_ref_plan(float(p[a]), shape[a], modes[a]) for a in range(nd)] for p in pts]
+                okrows = [i for i, pl in enumerate(plans) if all(q is not None for q in pl)]
+                if okrows:
+                    xs = np.array([[plans[i][a][0] for a in range(nd)] for i in okrows]).T
+                    wt = np.array([np.prod([plans[i][a][1] for a in range(nd)]) for i in okrows])
+                    sp[okrows] = wt * ndi.map_coordinates(C, xs, order=3, mode="mirror", prefilter=False)
+            for lname, cv in layouts:
+                got = _spl_sample(R, cv, pts, modes)
+                ncase += len(pts)
+                ck.count(("spl-any", shape, lname, modes, C.tobytes()), nontrivial=True,
+                         bucket="spline:anywhere:%dd:%s" % (nd, modes[0] if len(set(modes)) == 1 else "mixed"))
+                scale = 1.0 + np.abs(ref)
+                for which, r in (("restated-rule", ref), ("scipy-map_coordinates-mirror", sp)):
+                    bad = np.nonzero(np.abs(got - r) > _SPL_TOL * scale)[0]      # NaN (no scipy opinion) never fails
+                    for i in bad[:3]:
+                        p = pts[i]
+                        ax = int(np.argmax([0 if 0 <= p[a] <= shape[a] - 1 else 1 for a in range(nd)]))
+                        feat = "mode=%s,%s,extent%s" % (modes[ax], _spl_region(p[ax], shape[ax]),
+                                                        "=%d" % min(shape) if min(shape) < 3 else ">=3")
+                        ck.fail("spline/sample-vs-%s/%s" % (which, feat),
+                                "_cspline_sample%dd at %s (modes %s, %s layout) = %r; %s gives %r"
+                                % (nd, p.tolist(), modes, lname, float(got[i]), which, float(r[i])),
+                                {"call": "_cspline_sample%dd(R, C, *point, modes)" % nd, "C": C.tolist(),
+                                 "point": p.tolist(), "modes": list(modes), "layout": lname,
+                                 "got": float(got[i]), "expected": float(r[i])})
+        # separability: outer-product coefficients sample to the product of 1d samples
+        if nd > 1:
+            vecs = [rng.integers(-9, 10, n).astype(float) for n in shape]
+            Cs = vecs[0]
+            for v in vecs[1:]:
+                Cs = np.multiply.outer(Cs, v)
+            modes = tuple(_SPL_MODES[int(i)] for i in rng.permutation(3)[:nd]) if nd <= 3 else \
+                tuple(_SPL_MODES[int(i)] for i in list(rng.permutation(3)) + [int(rng.integers(0, 3))])
+            got = _spl_sample(R, Cs, pts, modes)
+            prod = np.ones(len(pts))
+            for a in range(nd):
+                prod = prod * _spl_sample(R, vecs[a], pts[:, a:a + 1], (modes[a],))
+            ncase += len(pts)
+            ck.count(("spl-sep", shape, modes, Cs.tobytes()), bucket="spline:separable:%dd" % nd)
+            bad = np.nonzero(np.abs(got - prod) > _SPL_TOL * (1 + np.abs(prod)))[0]
+            for i in bad[:1]:
+                ck.fail("spline/sample-separability/%dd" % nd,
+                        "_cspline_sample%dd on an outer-product coefficient array at %s with modes %s = %r, "
+                        "product of the 1d samples = %r" % (nd, pts[i].tolist(), modes, float(got[i]), float(prod[i])),
+                        {"vectors": [v.tolist() for v in vecs], "point": pts[i].tolist(), "modes": list(modes),
+                         "got": float(got[i]), "expected": float(prod[i])})
+    return ncase
+
+
+_SPL_CHILD = r'''
+import sys, json
+sys.path.insert(0, %(verif)r)
+from harness import overlay as ov
+ov.install({"dir": %(ovdir)r, "modules": list(ov.MODULES)})      # the parent's overlay (no rebuild)
+import numpy as np
+from nipy.algorithms.registration import _registration as R
+kind = sys.argv[1]
+s = (np.arange(1, 7, dtype=float) ** 2)
+c = R._cspline_transform(s)
+x = np.arange(6, dtype=float)
+out = np.zeros(6)
+if kind == "negative-stride":
+    cv = np.ascontiguousarray(c[::-1])[::-1]
+elif kind == "int64":
+    c = np.array([0, 6, 12, 18, 24, 30], dtype=np.int64); cv = c
+elif kind == "float32":
+    cv = c.astype(np.float32); c = cv.astype(float)
+try:
+    R._cspline_sample1d(out, cv, x, mode="nearest")
+    exp = np.zeros(6); R._cspline_sample1d(exp, np.ascontiguousarray(cv, dtype=float), x, mode="nearest")
+    print(json.dumps({"got": out.tolist(), "expected": exp.tolist()}))
+except (TypeError, ValueError) as e:
+    print(json.dumps({"raised": type(e).__name__}))
+'''
+
+
+def _spl_layout_child(ck):
+    """Coefficient arrays the wrapper accepts but the C reads through
+    `unsigned int offset = stride/sizeof(double)` and an unchecked double* cast:
+    negative strides and non-double dtypes.  Run in a child process (a wrong
+    offset reads outside the array)."""
+    kinds = ["negative-stride", "int64", "float32"]
+    for kind in kinds:
+        code = _SPL_CHILD % {"verif": str(VERIF), "ovdir": str(ck.ov["dir"])}
+        try:
+            r = subprocess.run([sys.executable, "-c", code, kind], capture_output=True, text=True, timeout=120)
+        except subprocess.TimeoutExpired:
+            ck.fail("spline/sample-coefficient-layout/%s,timeout" % kind, "child process timed out", {"kind": kind})
+            continue
+        ck.count(("spl-child", kind), bucket="spline:coefficient-layout:%s" % kind)
+        rep = {"call": "_cspline_sample1d(np.zeros(6), C, np.arange(6.), mode='nearest')",
+               "C": {"negative-stride": "np.ascontiguousarray(c[::-1])[::-1] with c=_cspline_transform(np.arange(1,7.)**2)",
+                     "int64": "np.array([0,6,12,18,24,30], dtype=np.int64)",
+                     "float32": "_cspline_transform(np.arange(1,7.)**2).astype(np.float32)"}[kind]}
+        if r.returncode != 0:
+            rep["returncode"] = r.returncode
+            rep["stderr_tail"] = r.stderr[-400:]
+            ck.fail("spline/sample-coefficient-layout/%s,crash" % kind,
+                    "sampling a %s coefficient array kills the interpreter (exit status %d)" % (kind, r.returncode), rep)
+            continue
+        import json
+        res = json.loads(r.stdout.strip().splitlines()[-1])
+        if "raised" in res:
+            continue        # rejected with a Python exception: acceptable
+        if not np.allclose(res["got"], res["expected"], rtol=0, atol=_SPL_TOL):
+            rep.update(res)
+            ck.fail("spline/sample-coefficient-layout/%s,wrong-values" % kind,
+                    "sampling a %s coefficient array returns %s; the same values as a contiguous double array give %s"
+                    % (kind, res["got"], res["expected"]), rep)
+
+
+_SPL_GUARD_CHILD = r"""
+import sys, json
+sys.path.insert(0, %(verif)r)
+from harness import overlay as ov
+ov.install({"dir": %(ovdir)r, "modules": list(ov.MODULES)})
+import numpy as np
+from nipy.algorithms.registration import _registration as R
+def say(**kw):
+    print(json.dumps(kw)); sys.stdout.flush()
+for n in range(1, 8):
+    say(call="_cspline_transform", n=n)
+    R._cspline_transform(np.arange(n, dtype=float) ** 2)
+say(call="_cspline_transform", shape=[3, 1, 4, 2])
+R._cspline_transform(np.arange(24, dtype=float).reshape(3, 1, 4, 2))
+for n in range(1, 8):
+    for mode in ("zero", "nearest", "reflect"):
+        for j in range(-2 * (n + 1), 2 * (2 * n + 1) + 1):
+            x = j / 2.0
+            say(call="_cspline_sample1d", n=n, mode=mode, x=x)
+            for k in range(n):
+                c = np.zeros(n); c[k] = 1.0
+                R._cspline_sample1d(np.zeros(1), c, [x], mode=mode)
+for shape in ((2, 3), (3, 1, 4), (2, 3, 2, 3)):
+    C = np.arange(float(np.prod(shape))).reshape(shape)
+    for mode in ("zero", "nearest", "reflect"):
+        for x in (-1.5, -0.5, 0.0, 0.5, 1.0, 1.5, 2.0, 2.5, 3.5, 4.5):
+            say(call="_cspline_sample%%dd" %% len(shape), shape=list(shape), mode=mode, x=x)
+            f = getattr(R, "_cspline_sample%%dd" %% len(shape))
+            f(np.zeros(1), C, *([[x]] * len(shape)), **{"m" + a: mode for a in "xyzt"[:len(shape)]})
+say(done=True)
+"""
+
+
+def _spl_guard(ck):
+    """Smoke-run the sampling/transform entry points in a child process first: an
+    out-of-range coefficient index kills the interpreter, and must be reported with
+    the offending input instead of taking the check down.  Returns True if safe."""
+    import json
+    code = _SPL_GUARD_CHILD % {"verif": str(VERIF), "ovdir": str(ck.ov["dir"])}
+    try:
+        r = subprocess.run([sys.executable, "-c", code], capture_output=True, text=True, timeout=300)
+    except subprocess.TimeoutExpired:
+        ck.fail("spline/guard/timeout", "the sampling smoke run did not finish in 300 s", {"kind": "hang"})
+        return False
+    lines = [l for l in r.stdout.strip().splitlines() if l.startswith("{")]
+    last = json.loads(lines[-1]) if lines else {}
+    ck.count(("spl-guard", len(lines)), bucket="spline:guard-child")
+    if r.returncode == 0 and last.get("done"):
+        return True
+    feat = "%s,mode=%s,%s" % (last.get("call", "?"), last.get("mode", "-"),
+                              _spl_region(last["x"], last["n"]) if "x" in last and "n" in last else "nd")
+    last["returncode"] = r.returncode
+    last["stderr_tail"] = r.stderr[-300:]
+    last["note"] = "unit-impulse coefficient arrays of length n (1d) / np.arange arrays (nd); see _SPL_GUARD_CHILD"
+    ck.fail("spline/crash/" + feat, "the interpreter dies (exit status %s) in %s" % (r.returncode, json.dumps(last)[:300]), last)
+    return False
+
+
+def spline(ck):
+    t0 = time.time()
+    R = _spl_R()
+    rng = ck.rng("spline")
+    if not _spl_guard(ck):
+        ck.section("spline", skipped="in-process sampling checks skipped: the smoke run in a child process crashed")
+        return
+    _spl_correspondence(ck, R)
+    t1 = time.time()
+    n_tr = _spl_transform_oracle(ck, R, ck.rng("spline-transform"))
+    n_gr = _spl_grid_oracle(ck, R, ck.rng("spline-grid"))
+    n_any = _spl_anywhere_oracle(ck, R, ck.rng("spline-anywhere"))
+    _spl_layout_child(ck)
+    ck.section("spline", transform_arrays=n_tr, grid_point_samples=n_gr, anywhere_samples=n_any,
+               tolerance=_SPL_TOL, correspondence_s=round(t1 - t0, 1), oracles_s=round(time.time() - t1, 1),
+               scipy_semantics="map_coordinates(C, x', order=3, mode='mirror', prefilter=False) times the mode weight w "
+                               "coincides with all three nipy modes wherever the nipy rule does not return 0: "
+                               "'reflect' = scipy 'mirror' on the once-mirrored grid, 'nearest'/'zero' = the same "
+                               "evaluated at the clamped coordinate (times the linear ramp for 'zero'); "
+                               "spline_filter(order=3, mode='mirror') = _cspline_transform")
+    ck.trust.append("spline: scipy.ndimage.spline_filter / map_coordinates and the closed-form B-spline restatement "
+                    "are test oracles (1e-10); the recursion of _cubic_spline_transform1d is tested, not proved")
+
+
+# ====================================================================== oracles (tests)
+# ---------------------------------------------------------------------------
+# C16 section "oracles": TESTS (no theorem behind them) of compiled kernels
+# against NumPy/SciPy definitions.  Paste into harness/props/c16.py.
+# Assumes ck.overlay(cstat=True) already ran (ck.ov["cstat"] = libcstat.so built
+# from /repo's current lib/fff + lapack_lite).
+#   histogram                 rebuilt module       vs np.bincount (exact)
+#   labs.utils.routines       INSTALLED (stale)    vs numpy/scipy (1e-10)
+#   fff_gamln / fff_psi       current C, ctypes    vs scipy.special (1e-10 relative)
+#   fff_permutation/_combination  current C, ctypes: valid + pairwise distinct (exhaustive)
+#   labs.bindings wrapper/array/linalg  rebuilt    vs numpy, exact on small integers
+#   fff_lapack_dgesdd / fff_mahalanobis current C, ctypes  vs numpy (1e-10)
+# ---------------------------------------------------------------------------
+import ctypes
+import itertools
+import math
+import time
+
+import numpy as np
+
+_ORC_TOL = 1e-10
+_ORC_DTYPES = [np.uint8, np.int8, np.uint16, np.int16, np.uint32, np.int32, np.uint64, np.int64,
+               np.float32, np.float64]
+_ORC_CNAMES = {np.uint8: "unsigned char", np.int8: "signed char", np.uint16: "unsigned short",
+               np.int16: "signed short", np.uint32: "unsigned int", np.int32: "int",
+               np.uint64: "unsigned long", np.int64: "long", np.float32: "float", np.float64: "double"}
+
+
+def _orc_close(a, b, tol=_ORC_TOL):
+    a = np.asarray(a, dtype=float)
+    b = np.asarray(b, dtype=float)
+    if a.shape != b.shape:
+        return False
+    return bool(np.all(np.abs(a - b) <= tol * np.maximum(1.0, np.abs(b)) + 0.0) or
+                np.array_equal(a, b))
+
+
+def _orc_views(a):
+    """Same values, different memory layouts (name, array)."""
+    outs = [("C", np.array(a, order="C", copy=True))]
+    if a.ndim >= 2:
+        outs.append(("F", np.array(a, order="F", copy=True)))
+        outs.append(("transposed", np.ascontiguousarray(a.T).T))
+    big = np.zeros([2 * s + 1 for s in a.shape], dtype=a.dtype)
+    sl = tuple(slice(1, None, 2) for _ in a.shape)
+    big[sl] = a
+    outs.append(("step2", big[sl]))
+    if a.size:
+        outs.append(("reversed", np.ascontiguousarray(a[::-1])[::-1]))
+    return outs
+
+
+def _orc_call(ck, sig, what, rep, f, *args, **kw):
+    """Call f; an exception is reported under `sig`/raises and returns None."""
+    try:
+        return f(*args, **kw)
+    except Exception as e:      # noqa
+        rep = dict(rep)
+        rep["exception"] = "%s: %s" % (type(e).__name__, e)
+        ck.fail(sig + ",raises", "%s raised %s: %s" % (what, type(e).__name__, e), rep)
+        return None
+
+
+# ------------------------------------------------------------------ histogram
+def _orc_histogram(ck, rng):
+    from nipy.algorithms.statistics.histogram import histogram
+    n = 0
+    cases = []
+    for shape in [(1,), (2,), (7,), (50,), (3, 4), (1, 5), (5, 1), (2, 3, 4), (4, 1, 3)]:
+        for top in (0, 1, 5, 255, 1000):
+            x = rng.integers(0, top + 1, size=shape).astype(np.uintp)
+            cases.append(("random", x))
+            for where in ("first", "last", "middle"):
+                y = rng.integers(0, max(top, 1), size=shape).astype(np.uintp)
+                flat = y.reshape(-1)
+                flat[{"first": 0, "last": -1, "middle": flat.size // 2}[where]] = top + 3
+                cases.append(("max-at-" + where, flat.reshape(shape)))
+    for kind, x in cases:
+        for lname, xv in _orc_views(x):
+            rep = {"call": "histogram(x)", "x": x.tolist(), "layout": lname, "dtype": str(x.dtype)}
+            h = _orc_call(ck, "oracle/statistics.histogram/%dd,%s" % (x.ndim, lname), "histogram", rep, histogram, xv)
+            n += 1
+            ck.count(("hist", kind, lname, x.shape, x.tobytes()), bucket="oracle:histogram:%dd:%s" % (x.ndim, lname))
+            if h is None:
+                continue
+            ref = np.bincount(x.reshape(-1).astype(np.int64))
+            if h.dtype != np.uintp or h.shape != ref.shape or not np.array_equal(h, ref):
+                rep.update(got=np.asarray(h).tolist(), expected=ref.tolist())
+                ck.fail("oracle/statistics.histogram/%dd,%s,%s" % (x.ndim, lname, kind),
+                        "histogram differs from np.bincount of the flattened array", rep)
+    # dtypes: only uintp is documented as accepted; everything else must raise ValueError
+    for dt in (np.uint8, np.uint16, np.uint32, np.int64, np.int32, np.float64):
+        if np.dtype(dt) == np.dtype(np.uintp):
+            continue
+        x = np.array([0, 2, 1, 2], dtype=dt)
+        n += 1
+        ck.count(("hist-dtype", str(dt)), bucket="oracle:histogram:dtype-rejected")
+        try:
+            h = histogram(x)
+            if not np.array_equal(h, np.bincount(x.astype(np.int64))):
+                ck.fail("oracle/statistics.histogram/dtype-not-uintp-accepted-wrong",
+                        "histogram accepted dtype %s and returned %s" % (np.dtype(dt), np.asarray(h).tolist()),
+                        {"x": x.tolist(), "dtype": str(np.dtype(dt))})
+        except ValueError:
+            pass
+    # empty input: numpy's max() raises ValueError (accepted: rejected with an exception); otherwise must be []
+    try:
+        h = histogram(np.zeros(0, dtype=np.uintp))
+        if len(h) != 0 and np.any(h):
+            ck.fail("oracle/statistics.histogram/empty", "histogram of an empty array is %s" % h.tolist(), {"x": []})
+    except ValueError:
+        pass
+    return n
+
+
+# ------------------------------------------------------------------ routines (installed, stale)
+def _orc_routines(ck, rng):
+    import scipy.special as sp
+    from nipy.labs.utils import routines as rt
+    ck.note("oracles: nipy.labs.utils.routines is the INSTALLED binary (routines.pyx cannot be re-cythonised here: "
+            "freshness %s); its results say nothing about /repo's current C - the current fff C is tested through "
+            "ctypes on libcstat.so" % ck.freshness.get("nipy.labs.utils.routines"))
+    n = 0
+    # quantile / median along every axis
+    for shape in [(1,), (2,), (5,), (8,), (3, 4), (4, 1), (2, 3, 5), (3, 2, 2, 4)]:
+        x = rng.integers(-9, 10, size=shape).astype(float)
+        for axis in range(len(shape)):
+            for lname, xv in _orc_views(x):
+                nn = shape[axis]
+                for r in (0.0, 0.125, 0.25, 0.5, 0.75, 1.0):
+                    for interp in (0, 1):
+                        rep = {"call": "routines.quantile(x, r, interp, axis)", "x": x.tolist(), "r": r,
+                               "interp": interp, "axis": axis, "layout": lname}
+                        sig = "oracle/routines.quantile/interp=%d,n%s" % (interp, "=%d" % nn if nn <= 2 else ">2")
+                        q = _orc_call(ck, sig, "quantile", rep, rt.quantile, xv.copy() if lname == "C" else xv, r,
+                                      interp=interp, axis=axis)
+                        n += 1
+                        ck.count(("rt-q", shape, axis, lname, r, interp, x.tobytes()),
+                                 bucket="oracle:routines.quantile:%s" % lname)
+                        if q is None:
+                            continue
+                        srt = np.sort(x, axis=axis)
+                        if interp:
+                            ref = np.quantile(x, r, axis=axis, keepdims=True)
+                        elif nn == 1:
+                            ref = srt
+                        else:
+                            p = math.ceil(r * nn)
+                            ref = np.full([1 if a == axis else s for a, s in enumerate(shape)], np.inf) if p == nn \
+                                else np.take(srt, [p], axis=axis)
+                        if not _orc_close(q, ref):
+                            rep.update(got=np.asarray(q).tolist(), expected=np.asarray(ref).tolist())
+                            ck.fail(sig + (",r=1" if r == 1.0 else ""), "quantile differs from the sorted-sample definition", rep)
+                msig = "oracle/routines.median/n%s" % ("=%d" % shape[axis] if shape[axis] <= 2 else ">2")
+                m = _orc_call(ck, msig, "median", {"x": x.tolist(), "axis": axis}, rt.median, xv, axis=axis)
+                if m is not None and not _orc_close(m, np.median(x, axis=axis, keepdims=True)):
+                    ck.fail(msig, "median differs from np.median",
+                            {"x": x.tolist(), "axis": axis, "layout": lname, "got": np.asarray(m).tolist()})
+    # mahalanobis, svd
+    for d, K in [(1, 1), (2, 3), (3, 4), (5, 2)]:
+        A = rng.integers(-3, 4, size=(d, d, K)).astype(float)
+        V = np.einsum("ijk,ljk->ilk", A, A) + np.eye(d)[:, :, None]
+        X = rng.integers(-5, 6, size=(d, K)).astype(float)
+        ref = np.array([X[:, k] @ np.linalg.solve(V[:, :, k], X[:, k]) for k in range(K)])
+        for lname, Xv in _orc_views(X):
+            d2 = _orc_call(ck, "oracle/routines.mahalanobis/d=%d" % d, "mahalanobis", {"X": X.tolist(), "VX": V.tolist()},
+                           rt.mahalanobis, Xv, V)
+            n += 1
+            ck.count(("rt-mah", d, K, lname, X.tobytes()), bucket="oracle:routines.mahalanobis")
+            if d2 is not None and not _orc_close(d2, ref):
+                ck.fail("oracle/routines.mahalanobis/d=%d" % d, "differs from x' inv(V) x (%s layout)" % lname,
+                        {"X": X.tolist(), "VX": V.tolist(), "got": np.asarray(d2).tolist(), "expected": ref.tolist()})
+    jobs = []
+    for m_, n_, K in [(1, 1, 1), (2, 3, 2), (3, 2, 2), (4, 4, 3), (5, 2, 1), (2, 6, 2)]:
+        X = rng.integers(-5, 6, size=(m_, n_, K)).astype(float)
+        jobs.append(("routines", X))
+        ck.count(("rt-svd", m_, n_, K, X.tobytes()), bucket="oracle:routines.svd")
+    n += len(jobs)
+    _orc_svd_children(ck, jobs, "oracle/routines.svd")
+    for x in _orc_specfun_grid(ck):
+        for name, f, g in (("gamln", rt.gamln, sp.gammaln), ("psi", rt.psi, sp.digamma)):
+            v, ref = f(float(x)), float(g(x))
+            n += 1
+            ck.count(("rt-" + name, float(x)), bucket="oracle:routines." + name)
+            if not abs(v - ref) <= _ORC_TOL * max(1.0, abs(ref)):
+                ck.fail("oracle/routines.%s/%s" % (name, _orc_xclass(x)), "%s(%r) = %r, scipy gives %r" % (name, x, v, ref),
+                        {"x": float(x), "got": v, "expected": ref})
+    return n
+
+
+def _orc_specfun_grid(ck):
+    xs = [1e-8, 1e-6, 1e-4, 1e-3, 0.01, 0.05, 0.1, 0.25, 0.5, 0.75, 0.9, 1.0, 1.25, 1.4616321449683623, 1.5,
+          2.0, 2.5, 3.0, 4.0, 5.5, 6.9, 7.0, 7.1, 8.0, 10.0, 12.5, 20.0, 50.0, 100.0, 171.5, 1e3, 1e4, 1e6, 1e8]
+    if ck.thorough():
+        xs += list(np.linspace(0.01, 30, 1500)) + list(np.logspace(-8, 8, 400))
+    else:
+        xs += list(np.linspace(0.05, 15, 150))
+    return xs
+
+
+def _orc_xclass(x):
+    return "x<0.1" if x < 0.1 else ("0.1<=x<7" if x < 7 else ("7<=x<100" if x < 100 else "x>=100"))
+
+
+# ------------------------------------------------------------------ current C via ctypes
+class _OrcVec(ctypes.Structure):
+    _fields_ = [("size", ctypes.c_size_t), ("stride", ctypes.c_size_t),
+                ("data", ctypes.POINTER(ctypes.c_double)), ("owner", ctypes.c_int)]
+
+
+class _OrcMat(ctypes.Structure):
+    _fields_ = [("size1", ctypes.c_size_t), ("size2", ctypes.c_size_t), ("tda", ctypes.c_size_t),
+                ("data", ctypes.POINTER(ctypes.c_double)), ("owner", ctypes.c_int)]
+
+
+def _orc_lib(ck):
+    lib = ctypes.CDLL(str(ck.ov["cstat"]))
+    for f in ("fff_gamln", "fff_psi"):
+        getattr(lib, f).restype = ctypes.c_double
+        getattr(lib, f).argtypes = [ctypes.c_double]
+    lib.fff_permutation.restype = None
+    lib.fff_permutation.argtypes = [ctypes.POINTER(ctypes.c_uint), ctypes.c_uint, ctypes.c_ulong]
+    lib.fff_combination.restype = None
+    lib.fff_combination.argtypes = [ctypes.POINTER(ctypes.c_uint), ctypes.c_uint, ctypes.c_uint, ctypes.c_ulong]
+    lib.fff_vector_new.restype = ctypes.POINTER(_OrcVec)
+    lib.fff_vector_new.argtypes = [ctypes.c_size_t]
+    lib.fff_vector_delete.argtypes = [ctypes.POINTER(_OrcVec)]
+    lib.fff_matrix_new.restype = ctypes.POINTER(_OrcMat)
+    lib.fff_matrix_new.argtypes = [ctypes.c_size_t, ctypes.c_size_t]
+    lib.fff_matrix_delete.argtypes = [ctypes.POINTER(_OrcMat)]
+    lib.fff_array_new.restype = ctypes.c_void_p
+    lib.fff_array_new.argtypes = [ctypes.c_int] + [ctypes.c_size_t] * 4
+    lib.fff_array_delete.argtypes = [ctypes.c_void_p]
+    lib.fff_lapack_dgesdd.restype = ctypes.c_int
+    lib.fff_lapack_dgesdd.argtypes = [ctypes.POINTER(_OrcMat), ctypes.POINTER(_OrcVec), ctypes.POINTER(_OrcMat),
+                                      ctypes.POINTER(_OrcMat), ctypes.POINTER(_OrcVec), ctypes.c_void_p,
+                                      ctypes.POINTER(_OrcMat)]
+    lib.fff_mahalanobis.restype = ctypes.c_double
+    lib.fff_mahalanobis.argtypes = [ctypes.POINTER(_OrcVec), ctypes.POINTER(_OrcMat), ctypes.POINTER(_OrcMat)]
+    for f in ("fff_vector_sum", "fff_vector_sad"):
+        getattr(lib, f).restype = ctypes.c_longdouble
+    lib.fff_vector_sum.argtypes = [ctypes.POINTER(_OrcVec)]
+    lib.fff_vector_sad.argtypes = [ctypes.POINTER(_OrcVec), ctypes.c_double]
+    lib.fff_vector_median.restype = ctypes.c_double
+    lib.fff_vector_median.argtypes = [ctypes.POINTER(_OrcVec)]
+    lib.fff_vector_quantile.restype = ctypes.c_double
+    lib.fff_vector_quantile.argtypes = [ctypes.POINTER(_OrcVec), ctypes.c_double, ctypes.c_int]
+    return lib
+
+
+def _orc_vec(lib, x):
+    v = lib.fff_vector_new(len(x))
+    for i, a in enumerate(x):
+        v.contents.data[i] = float(a)
+    return v
+
+
+def _orc_mat(lib, A):
+    A = np.asarray(A, dtype=float)
+    m = lib.fff_matrix_new(A.shape[0], A.shape[1])
+    tda = m.contents.tda
+    for i in range(A.shape[0]):
+        for j in range(A.shape[1]):
+            m.contents.data[i * tda + j] = float(A[i, j])
+    return m
+
+
+def _orc_specfun_c(ck, lib):
+    import scipy.special as sp
+    n = 0
+    for x in _orc_specfun_grid(ck):
+        for name, f, g in (("fff_gamln", lib.fff_gamln, sp.gammaln), ("fff_psi", lib.fff_psi, sp.digamma)):
+            v, ref = float(f(float(x))), float(g(x))
+            n += 1
+            ck.count(("c-" + name, float(x)), bucket="oracle:specfun.%s:%s" % (name, _orc_xclass(x)))
+            if not abs(v - ref) <= _ORC_TOL * max(1.0, abs(ref)):
+                ck.fail("oracle/fff_specfun.%s/%s" % (name, _orc_xclass(x)),
+                        "%s(%r) = %r (current C through ctypes), scipy gives %r" % (name, float(x), v, ref),
+                        {"call": "%s(x) in libcstat.so" % name, "x": float(x), "got": v, "expected": ref})
+    return n
+
+
+def _orc_perm_comb(ck, lib):
+    n_calls = 0
+    nmax = ck.n(6, 8)
+    for n in range(1, nmax + 1):
+        buf = (ctypes.c_uint * n)()
+        seen = {}
+        for magic in range(math.factorial(n)):
+            lib.fff_permutation(buf, n, magic)
+            p = tuple(buf)
+            n_calls += 1
+            if sorted(p) != list(range(n)):
+                ck.fail("oracle/fff_gen_stats.fff_permutation/not-a-permutation",
+                        "fff_permutation(n=%d, magic=%d) = %s is not a permutation of 0..n-1" % (n, magic, list(p)),
+                        {"n": n, "magic": magic, "got": list(p)})
+                break
+            if p in seen:
+                ck.fail("oracle/fff_gen_stats.fff_permutation/repeated",
+                        "fff_permutation(n=%d) gives %s for both magic=%d and magic=%d" % (n, list(p), seen[p], magic),
+                        {"n": n, "magic": [seen[p], magic], "got": list(p)})
+                break
+            seen[p] = magic
+        ck.count(("perm", n), bucket="oracle:fff_permutation:exhaustive-n")
+        if n == 3:
+            lib.fff_permutation(buf, n, 0)
+            if tuple(buf) != (0, 1, 2):
+                ck.fail("oracle/fff_gen_stats.fff_permutation/magic0-not-identity",
+                        "fff_permutation(3, 0) = %s" % list(buf), {"n": 3, "magic": 0, "got": list(buf)})
+    cmax = ck.n(7, 10)
+    for n in range(1, cmax + 1):
+        for k in range(1, n + 1):
+            buf = (ctypes.c_uint * k)()
+            seen = {}
+            for magic in range(math.comb(n, k)):
+                for i in range(k):
+                    buf[i] = 0xFFFFFFFF
+                lib.fff_combination(buf, k, n, magic)
+                c = tuple(buf)
+                n_calls += 1
+                if not (all(c[i] < c[i + 1] for i in range(k - 1)) and all(0 <= v < n for v in c)):
+                    ck.fail("oracle/fff_gen_stats.fff_combination/not-an-increasing-subset",
+                            "fff_combination(k=%d, n=%d, magic=%d) = %s is not a strictly increasing k-subset of 0..n-1"
+                            % (k, n, magic, list(c)), {"k": k, "n": n, "magic": magic, "got": list(c)})
+                    break
+                if c in seen:
+                    ck.fail("oracle/fff_gen_stats.fff_combination/repeated",
+                            "fff_combination(k=%d, n=%d) gives %s for magic=%d and magic=%d" % (k, n, list(c), seen[c], magic),
+                            {"k": k, "n": n, "magic": [seen[c], magic], "got": list(c)})
+                    break
+                seen[c] = magic
+            ck.count(("comb", n, k), bucket="oracle:fff_combination:exhaustive-n-k")
+    return n_calls
+
+
+_ORC_SVD_CHILD = r"""
+import sys, json, ctypes
+import numpy as np
+mode, libpath, X = sys.argv[1], sys.argv[2], np.array(json.loads(sys.argv[3]), dtype=float)
+m, n, K = X.shape
+if mode == "routines":
+    import warnings; warnings.simplefilter("ignore")
+    from nipy.labs.utils import routines as rt
+    print(json.dumps({"s": np.asarray(rt.svd(X)).tolist(), "info": 0}))
+else:
+    class Vec(ctypes.Structure):
+        _fields_ = [("size", ctypes.c_size_t), ("stride", ctypes.c_size_t), ("data", ctypes.POINTER(ctypes.c_double)), ("owner", ctypes.c_int)]
+    class Mat(ctypes.Structure):
+        _fields_ = [("size1", ctypes.c_size_t), ("size2", ctypes.c_size_t), ("tda", ctypes.c_size_t), ("data", ctypes.POINTER(ctypes.c_double)), ("owner", ctypes.c_int)]
+    lib = ctypes.CDLL(libpath)
+    lib.fff_vector_new.restype = ctypes.POINTER(Vec); lib.fff_vector_new.argtypes = [ctypes.c_size_t]
+    lib.fff_matrix_new.restype = ctypes.POINTER(Mat); lib.fff_matrix_new.argtypes = [ctypes.c_size_t] * 2
+    lib.fff_array_new.restype = ctypes.c_void_p; lib.fff_array_new.argtypes = [ctypes.c_int] + [ctypes.c_size_t] * 4
+    lib.fff_lapack_dgesdd.restype = ctypes.c_int
+    lib.fff_lapack_dgesdd.argtypes = [ctypes.POINTER(Mat), ctypes.POINTER(Vec), ctypes.POINTER(Mat), ctypes.POINTER(Mat),
+                                      ctypes.POINTER(Vec), ctypes.c_void_p, ctypes.POINTER(Mat)]
+    lib.fff_matrix_delete.argtypes = [ctypes.POINTER(Mat)]; lib.fff_vector_delete.argtypes = [ctypes.POINTER(Vec)]
+    out, info = [], 0
+    dmin, dmax = min(m, n), max(m, n)
+    for k in range(K):
+        A = lib.fff_matrix_new(m, n)
+        for i in range(m):
+            for j in range(n):
+                A.contents.data[i * A.contents.tda + j] = X[i, j, k]
+        U, Vt, Aux = lib.fff_matrix_new(m, m), lib.fff_matrix_new(n, n), lib.fff_matrix_new(dmax, dmax)
+        s = lib.fff_vector_new(dmin)
+        work = lib.fff_vector_new(2 * (3 * dmin * dmin + max(dmax, 4 * dmin * (dmin + 1))))
+        iwork = lib.fff_array_new(5, 8 * dmin, 1, 1, 1)      # FFF_INT
+        info |= lib.fff_lapack_dgesdd(A, s, U, Vt, work, iwork, Aux)
+        out.append([s.contents.data[i] for i in range(dmin)])
+        for p in (A, U, Vt, Aux):
+            lib.fff_matrix_delete(p)
+        lib.fff_vector_delete(s); lib.fff_vector_delete(work)
+    print(json.dumps({"s": np.array(out).T.tolist(), "info": int(info)}))
+"""
+
+
+def _orc_svd_children(ck, jobs, sigbase):
+    """Singular values of each (m, n, K) stack in its own child process: for m > n the C
+    passes the wrong leading dimension to dgesdd, which overruns the matrix buffer."""
+    import json
+    import subprocess
+    import sys
+    procs = []
+    for mode, X in jobs:
+        procs.append((X, subprocess.Popen([sys.executable, "-c", _ORC_SVD_CHILD, mode, str(ck.ov["cstat"]), json.dumps(X.tolist())],
+                                          stdout=subprocess.PIPE, stderr=subprocess.PIPE, text=True)))
+    for X, p in procs:
+        try:
+            out, err = p.communicate(timeout=120)
+        except subprocess.TimeoutExpired:
+            p.kill()
+            out, err = "", "timeout"
+        m_, n_, K = X.shape
+        feat = "m<n" if m_ < n_ else ("m>n" if m_ > n_ else "square")
+        ref = np.stack([np.linalg.svd(X[:, :, k], compute_uv=False) for k in range(K)], axis=1)
+        rep = {"call": "svd of each X[:, :, k] (%s)" % sigbase.split("/")[1], "X": X.tolist(), "expected": ref.tolist()}
+        if p.returncode != 0:
+            rep.update(returncode=p.returncode, stderr_tail=err[-300:])
+            ck.fail("%s/%s,crash" % (sigbase, feat),
+                    "SVD of a %dx%d matrix kills the interpreter (exit status %s: %s)" % (m_, n_, p.returncode, err.strip()[-80:]), rep)
+            continue
+        res = json.loads(out.strip().splitlines()[-1])
+        if res["info"] != 0 or not _orc_close(res["s"], ref):
+            rep.update(got=res["s"], info=res["info"])
+            ck.fail("%s/%s" % (sigbase, feat), "singular values differ from numpy.linalg.svd", rep)
+
+
+def _orc_lapack_c(ck, lib, rng):
+    """fff_lapack_dgesdd (lapack_lite dgesdd behind the row-major wrapper), fff_mahalanobis
+    (dpotrf + dtrsv) and fff_vector reductions from the current C."""
+    n = 0
+    shapes = [(1, 1), (2, 2), (2, 3), (3, 2), (4, 4), (5, 2), (2, 6), (6, 5)]
+    if ck.thorough():
+        shapes += [(int(a), int(b)) for a, b in rng.integers(1, 9, size=(30, 2))]
+    jobs = []
+    for (m_, n_) in shapes:
+        X = rng.integers(-5, 6, size=(m_, n_, 1)).astype(float)
+        jobs.append(("cstat", X))
+        ck.count(("c-svd", m_, n_, X.tobytes()), bucket="oracle:fff_lapack_dgesdd")
+    n += len(jobs)
+    _orc_svd_children(ck, jobs, "oracle/fff_lapack.dgesdd")
+    for d in (1, 2, 3, 5):
+        A = rng.integers(-3, 4, size=(d, d)).astype(float)
+        V = A @ A.T + np.eye(d)
+        x = rng.integers(-5, 6, size=d).astype(float)
+        xv, S, Sa = _orc_vec(lib, x), _orc_mat(lib, V), lib.fff_matrix_new(d, d)
+        got = float(lib.fff_mahalanobis(xv, S, Sa))
+        lib.fff_vector_delete(xv)
+        lib.fff_matrix_delete(S)
+        lib.fff_matrix_delete(Sa)
+        ref = float(x @ np.linalg.solve(V, x))
+        n += 1
+        ck.count(("c-mah", d, x.tobytes(), V.tobytes()), bucket="oracle:fff_mahalanobis")
+        if not abs(got - ref) <= _ORC_TOL * max(1.0, abs(ref)):
+            ck.fail("oracle/fff_gen_stats.fff_mahalanobis/d=%d" % d, "fff_mahalanobis = %r, x' inv(S) x = %r" % (got, ref),
+                    {"x": x.tolist(), "S": V.tolist(), "got": got, "expected": ref})
+    # vector reductions / order statistics of the current C
+    for size in list(range(1, 10)) + [16, 25]:
+        for rep_ in range(ck.n(3, 12)):
+            x = rng.integers(-4, 5, size=size).astype(float)
+            v = _orc_vec(lib, x)
+            s_ = float(lib.fff_vector_sum(v))
+            sad = float(lib.fff_vector_sad(v, 1.0))
+            lib.fff_vector_delete(v)
+            v = _orc_vec(lib, x)
+            med = float(lib.fff_vector_median(v))
+            lib.fff_vector_delete(v)
+            n += 1
+            ck.count(("c-vec", x.tobytes()), bucket="oracle:fff_vector:reductions")
+            if s_ != x.sum() or sad != np.abs(x - 1.0).sum() or med != float(np.median(x)):
+                ck.fail("oracle/fff_vector.sum-sad-median/n%s" % ("=%d" % size if size <= 2 else (">2,odd" if size % 2 else ">2,even")),
+                        "fff_vector_sum/sad/median = %r/%r/%r, numpy %r/%r/%r" % (s_, sad, med, x.sum(), np.abs(x - 1).sum(), np.median(x)),
+                        {"x": x.tolist()})
+            for r in (0.0, 0.25, 0.5, 0.75, 1.0):
+                for interp in (0, 1):
+                    v = _orc_vec(lib, x)
+                    q = float(lib.fff_vector_quantile(v, r, interp))
+                    lib.fff_vector_delete(v)
+                    srt = np.sort(x)
+                    if interp:
+                        ref = float(np.quantile(x, r))
+                    elif size == 1:
+                        ref = float(x[0])
+                    else:
+                        p = math.ceil(r * size)
+                        ref = math.inf if p == size else float(srt[p])
+                    if not (q == ref or abs(q - ref) <= _ORC_TOL):
+                        ck.fail("oracle/fff_vector.quantile/interp=%d,n%s%s" % (interp, "=%d" % size if size <= 2 else ">2", ",r=1" if r == 1.0 else ",r=%g" % r),
+                                "fff_vector_quantile(x, %r, %d) = %r, definition gives %r" % (r, interp, q, ref),
+                                {"x": x.tolist(), "r": r, "interp": interp, "got": q, "expected": ref})
+    return n
+
+
+# ------------------------------------------------------------------ bindings (rebuilt)
+def _orc_int_array(rng, shape, dt, lo=0, hi=12):
+    info_lo = lo if np.issubdtype(dt, np.unsignedinteger) else -hi
+    return rng.integers(info_lo, hi + 1, size=shape).astype(dt)
+
+
+def _orc_bindings(ck, rng):
+    from nipy.labs.bindings import wrapper as W
+    from nipy.labs.bindings import array as A
+    from nipy.labs.bindings import linalg as L
+    n = 0
+
+    c_failed = set()
+
+    def check(sig, what, got, ref, rep, exact=True):
+        """sig = 'oracle/<module.function>/<feature>[,axis=..]|<layout>': the layout is only part of the
+        reported signature when the same case passes in C layout (so a defect that does not depend on the
+        memory layout gets one signature)."""
+        nonlocal n
+        n += 1
+        if got is None:
+            return
+        base, _, lay = sig.partition("|")
+        g = np.asarray(got)
+        r = np.asarray(ref)
+        ok = g.shape == r.shape and (np.array_equal(g, r) if exact else _orc_close(g, r))
+        if not ok:
+            rep = dict(rep)
+            rep.update(got=g.tolist(), expected=r.tolist())
+            if lay in ("", "C"):
+                c_failed.add(base)
+                ck.fail(base, "%s differs from numpy" % what, rep)
+            elif base not in c_failed:
+                ck.fail(base + "," + lay, "%s differs from numpy (%s layout)" % (what, lay), rep)
+
+    # type table
+    for dt in _ORC_DTYPES:
+        got = _orc_call(ck, "oracle/bindings.wrapper.fff_type/%s" % np.dtype(dt).name, "fff_type", {}, W.fff_type, np.dtype(dt))
+        n += 1
+        ck.count(("fff_type", np.dtype(dt).name), bucket="oracle:bindings.fff_type")
+        if got is not None and tuple(got) != (_ORC_CNAMES[dt], np.dtype(dt).itemsize):
+            ck.fail("oracle/bindings.wrapper.fff_type/%s" % np.dtype(dt).name,
+                    "fff_type(dtype('%s')) = %s, the C type of that dtype is (%r, %d)"
+                    % (np.dtype(dt).name, tuple(got), _ORC_CNAMES[dt], np.dtype(dt).itemsize),
+                    {"call": "wrapper.fff_type(np.dtype(%r))" % np.dtype(dt).name, "got": list(got)})
+    for t in W.c_types:
+        got = _orc_call(ck, "oracle/bindings.wrapper.npy_type/round-trip", "npy_type", {"T": t}, W.npy_type, t)
+        n += 1
+        if got is not None and t != "unknown type" and got[0] != t:
+            ck.fail("oracle/bindings.wrapper.npy_type/round-trip", "npy_type(%r) = %s" % (t, got), {"T": t})
+
+    # vectors: every dtype x layout
+    sizes = [1, 2, 3, 4, 5, 8]
+    modified_by_median = set()
+    for dt in _ORC_DTYPES:
+        dn = np.dtype(dt).name
+        for size in sizes:
+            x = _orc_int_array(rng, size, dt)
+            y = _orc_int_array(rng, size, dt, lo=1)
+            y[y == 0] = 3
+            for lname, xv in _orc_views(x):
+                yv = dict(_orc_views(y))[lname]
+                rep = {"x": x.tolist(), "y": y.tolist(), "dtype": dn, "layout": lname}
+                ck.count(("bind-vec", dn, size, lname, x.tobytes(), y.tobytes()), bucket="oracle:bindings.vector:%s:%s" % (dn, lname))
+                xf, yf = x.astype(float), y.astype(float)
+                fresh = lambda: dict(_orc_views(x))[lname]      # vector_median/quantile partially sort a double input in place
+                pre = "oracle/bindings.%s/" + "n%s|%s" % ("=%d" % size if size <= 2 else ">2", lname)
+                for name, f, ref in (("wrapper.pass_vector", lambda: W.pass_vector(xv), xf),
+                                     ("wrapper.copy_vector(flag=0)", lambda: W.copy_vector(xv, 0), xf),
+                                     ("wrapper.copy_vector(flag=1)", lambda: W.copy_vector(xv, 1), xf),
+                                     ("linalg.vector_add", lambda: L.vector_add(xv, yv), xf + yf),
+                                     ("linalg.vector_sub", lambda: L.vector_sub(xv, yv), xf - yf),
+                                     ("linalg.vector_mul", lambda: L.vector_mul(xv, yv), xf * yf),
+                                     ("linalg.vector_div", lambda: L.vector_div(xv, yv), xf / yf),
+                                     ("linalg.vector_scale", lambda: L.vector_scale(xv, 3.0), 3.0 * xf),
+                                     ("linalg.vector_add_constant", lambda: L.vector_add_constant(xv, 2.0), xf + 2.0),
+                                     ("linalg.vector_set_all", lambda: L.vector_set_all(xv, 7.0), np.full(size, 7.0)),
+                                     ("linalg.vector_sum", lambda: L.vector_sum(xv), xf.sum()),
+                                     ("linalg.vector_ssd(m=1,fixed)", lambda: L.vector_ssd(xv, 1.0, 1), ((xf - 1.0) ** 2).sum()),
+                                     ("linalg.vector_sad(m=1)", lambda: L.vector_sad(xv, 1.0), np.abs(xf - 1.0).sum()),
+                                     ("linalg.vector_median", lambda: L.vector_median(fresh()), np.median(xf)),
+                                     ("linalg.vector_quantile(.25,interp)", lambda: L.vector_quantile(fresh(), 0.25, 1), np.quantile(xf, 0.25)),
+                                     ("linalg.vector_quantile(.5,no-interp)", lambda: L.vector_quantile(fresh(), 0.5, 0),
+                                      np.sort(xf)[math.ceil(0.5 * size)] if size > 1 else xf[0])):
+                    sig = pre % name
+                    got = _orc_call(ck, sig.replace('|', ','), name, rep, f)
+                    check(sig, name, got, ref, rep, exact=not name.startswith("linalg.vector_ssd"))
+                got = _orc_call(ck, (pre % "linalg.vector_ssd(free)").replace("|", ","), "vector_ssd", rep, L.vector_ssd, xv, 0.0, 0)
+                check(pre % "linalg.vector_ssd(free)", "vector_ssd(fixed=0)", got, ((xf - xf.mean()) ** 2).sum(), rep, exact=False)
+                for i in {0, size - 1, size // 2}:
+                    got = _orc_call(ck, (pre % "linalg.vector_get").replace("|", ","), "vector_get", rep, L.vector_get, xv, i)
+                    check(pre % "linalg.vector_get", "vector_get(%d)" % i, got, xf[i], dict(rep, i=i))
+                    got = _orc_call(ck, (pre % "linalg.vector_set").replace("|", ","), "vector_set", rep, L.vector_set, xv, i, 9.0)
+                    ref = xf.copy()
+                    ref[i] = 9.0
+                    check(pre % "linalg.vector_set", "vector_set(%d, 9)" % i, got, ref, dict(rep, i=i))
+                if not np.array_equal(xv, x) or not np.array_equal(yv, y):
+                    ck.fail("oracle/bindings.vector/input-modified,%s" % lname, "a vector wrapper modified its input", rep)
+                if dt is np.float64 and size > 2:
+                    z = fresh()
+                    L.vector_median(z)
+                    if not np.array_equal(z, x):
+                        modified_by_median.add(lname)
+
+    if modified_by_median:
+        ck.note("oracles: linalg.vector_median/vector_quantile reorder a float64 input array in place (layouts %s); "
+                "caller-data mutation belongs to C20, the oracle passes fresh arrays" % sorted(modified_by_median))
+    # matrices
+    for dt in _ORC_DTYPES:
+        dn = np.dtype(dt).name
+        for shape in [(1, 1), (1, 4), (3, 1), (2, 3), (4, 4)]:
+            a = _orc_int_array(rng, shape, dt)
+            b = _orc_int_array(rng, shape, dt)
+            for lname, av in _orc_views(a):
+                bv = dict(_orc_views(b))[lname]
+                rep = {"A": a.tolist(), "B": b.tolist(), "dtype": dn, "layout": lname}
+                ck.count(("bind-mat", dn, shape, lname, a.tobytes(), b.tobytes()), bucket="oracle:bindings.matrix:%s:%s" % (dn, lname))
+                af, bf = a.astype(float), b.astype(float)
+                pre = "oracle/bindings.%s/" + "%s|%s" % ("vector-shaped" if 1 in shape else "2d", lname)
+                for name, f, ref in (("wrapper.pass_matrix", lambda: W.pass_matrix(av), af),
+                                     ("linalg.matrix_transpose", lambda: L.matrix_transpose(av), af.T),
+                                     ("linalg.matrix_add", lambda: L.matrix_add(av, bv), af + bf),
+                                     ("linalg.matrix_get", lambda: L.matrix_get(av, shape[0] - 1, shape[1] // 2),
+                                      af[shape[0] - 1, shape[1] // 2])):
+                    got = _orc_call(ck, (pre % name).replace("|", ","), name, rep, f)
+                    check(pre % name, name, got, ref, rep)
+
+    # arrays 1..4 dims; iterators along every axis
+    shapes = [(3,), (1,), (2, 3), (3, 1), (2, 3, 2), (1, 2, 3), (2, 2, 3, 2), (3, 1, 2, 2)]
+    if ck.thorough():
+        shapes += [tuple(int(v) for v in rng.integers(1, 5, int(nd))) for nd in rng.integers(1, 5, 20)]
+    for dt in _ORC_DTYPES:
+        dn = np.dtype(dt).name
+        for shape in shapes:
+            a = _orc_int_array(rng, shape, dt, hi=9)
+            b = _orc_int_array(rng, shape, dt, lo=1, hi=9)
+            b[b == 0] = 2
+            if np.issubdtype(dt, np.unsignedinteger):
+                a = (a + b).astype(dt)          # keep a - b >= 0
+            q = (a.astype(np.int64) * b.astype(np.int64)).astype(dt)    # q / b exact
+            for lname, av in _orc_views(a):
+                bv = dict(_orc_views(b))[lname]
+                qv = dict(_orc_views(q))[lname]
+                rep = {"A": a.tolist(), "B": b.tolist(), "dtype": dn, "layout": lname}
+                ck.count(("bind-arr", dn, shape, lname, a.tobytes(), b.tobytes()), bucket="oracle:bindings.array:%dd:%s" % (len(shape), lname))
+                pre = "oracle/bindings.%s/" + "%dd|%s" % (len(shape), lname)
+                for name, f, ref in (("wrapper.pass_array", lambda: W.pass_array(av), a),
+                                     ("array.array_add", lambda: A.array_add(av, bv), a + b),
+                                     ("array.array_sub", lambda: A.array_sub(av, bv), a - b),
+                                     ("array.array_mul", lambda: A.array_mul(av, bv), a * b),
+                                     ("array.array_div", lambda: A.array_div(qv, bv), a)):
+                    got = _orc_call(ck, (pre % name).replace("|", ","), name, rep, f)
+                    if got is not None:
+                        got = np.asarray(got).reshape(shape) if np.asarray(got).size == a.size else got
+                        if np.asarray(got).dtype != np.dtype(dt):
+                            ck.fail((pre % name) + ",dtype", "%s returns dtype %s for %s input" % (name, np.asarray(got).dtype, dn), rep)
+                    check(pre % name, name, got, ref, rep)
+                idx = [tuple(s - 1 for s in shape), tuple(s // 2 for s in shape), (0,) * len(shape)]
+                for ix in idx:
+                    got = _orc_call(ck, (pre % "array.array_get").replace("|", ","), "array_get", rep, A.array_get, av, *ix)
+                    check(pre % "array.array_get", "array_get%s" % (ix,), got, float(a[ix]), dict(rep, index=list(ix)))
+                for axis in range(len(shape)):
+                    af = a.astype(float)
+                    got = _orc_call(ck, (pre % "wrapper.copy_via_iterators").replace("|", ","), "copy_via_iterators", rep, W.copy_via_iterators, av, axis)
+                    check((pre % "wrapper.copy_via_iterators").replace("|", ",axis=%d|" % axis), "copy_via_iterators(axis=%d)" % axis, got, af, dict(rep, axis=axis))
+                    got = _orc_call(ck, (pre % "wrapper.sum_via_iterators").replace("|", ","), "sum_via_iterators", rep, W.sum_via_iterators, av, axis)
+                    check((pre % "wrapper.sum_via_iterators").replace("|", ",axis=%d|" % axis), "sum_via_iterators(axis=%d)" % axis, got,
+                          af.sum(axis=axis, keepdims=True).squeeze(), dict(rep, axis=axis))
+                    nfib = a.size // shape[axis]
+                    for it in {0, nfib - 1, nfib // 2}:
+                        got = _orc_call(ck, (pre % "wrapper.pass_vector_via_iterator").replace("|", ","), "pass_vector_via_iterator", rep,
+                                        W.pass_vector_via_iterator, av, axis, it)
+                        fib = np.moveaxis(af, axis, -1).reshape(nfib, shape[axis])[it]
+                        check((pre % "wrapper.pass_vector_via_iterator").replace("|", ",axis=%d|" % axis),
+                              "pass_vector_via_iterator(axis=%d, niters=%d)" % (axis, it), got, fib, dict(rep, axis=axis, niters=it))
+    # array_get_block on a 4d array (x1 etc. are inclusive ends: dim = (x1-x0)/fX + 1)
+    x = rng.integers(-9, 10, size=(5, 6, 4, 5)).astype(float)
+    for feat, args, ref in (("fT==fZ", (1, 4, 2, 0, 5, 3, 1, 3, 2, 0, 4, 2), x[1:5:2, 0:6:3, 1:4:2, 0:5:2]),
+                            ("fT!=fZ", (1, 4, 2, 0, 5, 3, 1, 3, 1, 0, 4, 2), x[1:5:2, 0:6:3, 1:4:1, 0:5:2])):
+        for lname, xv in _orc_views(x):
+            sig = "oracle/bindings.array.array_get_block/%s|%s" % (feat, lname)
+            rep = {"call": "array_get_block(x, *args)", "args": list(args), "x_shape": list(x.shape), "layout": lname,
+                   "x": "rng.integers(-9, 10, size=(5,6,4,5))"}
+            got = _orc_call(ck, sig.replace("|", ","), "array_get_block", rep, A.array_get_block, xv, *args)
+            check(sig, "array_get_block%s" % (args,), got, ref, rep)
+    return n
+
+
+def oracles(ck):
+    t0 = time.time()
+    times = {}
+    lib = _orc_lib(ck)
+    for name, f in (("histogram", lambda: _orc_histogram(ck, ck.rng("orc-hist"))),
+                    ("routines_installed", lambda: _orc_routines(ck, ck.rng("orc-routines"))),
+                    ("specfun_current_c", lambda: _orc_specfun_c(ck, lib)),
+                    ("perm_comb_current_c", lambda: _orc_perm_comb(ck, lib)),
+                    ("lapack_vector_current_c", lambda: _orc_lapack_c(ck, lib, ck.rng("orc-lapack"))),
+                    ("bindings", lambda: _orc_bindings(ck, ck.rng("orc-bindings")))):
+        t = time.time()
+        n = f()
+        times[name] = {"cases": n, "s": round(time.time() - t, 1)}
+    ck.section("oracles", kind="TESTS against NumPy/SciPy (no theorem); tolerance 1e-10 relative where not exact",
+               wall_s=round(time.time() - t0, 1), **times)
+    ck.trust.append("oracles: numpy/scipy (bincount, sort/quantile/median, linalg.svd/solve, special.gammaln/digamma) "
+                    "as reference implementations")
+
+
+# <<< PASTED SECTIONS
 # ====================================================================== run
 def run(ck):
     ck.cov["rule"] = (
@@ -1028,6 +2322,12 @@ def run(ck):
         "ratio, interp) and non-trivial when the sample has more than one element.  blas / spline / oracles: see sections.")
     _timed(ck, "coq_build", lambda c: c.coq_build())
     _timed(ck, "overlay", lambda c: c.overlay(cstat=True))
+    # load every binary now: concurrent checks prune old overlay directories, a loaded library stays usable
+    ck._c16_libs = [ctypes.CDLL(str(ck.ov["cstat"])), _q_lib(ck)]
+    import nipy.algorithms.statistics                       # noqa
+    import nipy.algorithms.statistics.histogram             # noqa
+    import nipy.algorithms.registration._registration       # noqa
+    import nipy.labs.bindings.linalg, nipy.labs.bindings.array, nipy.labs.bindings.wrapper   # noqa
     ck.trust.append("ctypes call of the exported C symbol `quantile` in the rebuilt _quantile extension (argument marshalling in harness/props/c16.py)")
     ck.assume.append("sample values are integers of small magnitude (exactly representable doubles); NaN / inf inputs are outside the model")
     quantile_section(ck)
